@@ -25,6 +25,8 @@ theorem pow2_mono (a b : ℕ) (h : a < b) : 2 * 2 ^ a ≤ 2 ^ b := by
   have : 2 ^ (a + 1) ≤ 2 ^ b := Nat.pow_le_pow_right (by norm_num) h
   rw [pow_succ] at this; linarith
 
+theorem pow2_le (a b : ℕ) (h : a ≤ b) : 2 ^ a ≤ 2 ^ b := Nat.pow_le_pow_right (by norm_num) h
+
 theorem pow2_succ (a : ℕ) : 2 ^ (a + 1) = 2 * 2 ^ a := by rw [pow_succ]; ring
 
 theorem pow2_add (a b : ℕ) : 2 ^ (a + b) = 2 ^ a * 2 ^ b := pow_add 2 a b
